@@ -1,0 +1,577 @@
+//! Lock shims.  They wrap the real primitives, and decide ownership with the real `try_lock`,
+//! but never block in the kernel when the calling thread is simulated: a thread that cannot get
+//! a lock reports that to the runtime and is de-scheduled until the lock is released.
+//!
+//! Only the API subset used by mmtk-core is provided.
+
+use super::rt::{self, site};
+use std::ops::{Deref, DerefMut};
+use std::sync::{LockResult, PoisonError, TryLockError, TryLockResult};
+
+fn addr_of<T: ?Sized>(t: &T) -> usize {
+    t as *const T as *const u8 as usize
+}
+
+#[inline(always)]
+fn pre_lock(s: u32) {
+    rt::yield_point(s);
+}
+
+#[inline(always)]
+fn released(lock: usize) {
+    if let Some(rt) = rt::sim() {
+        rt.lock_released(lock);
+        rt::yield_point(site::LOCK_UNLOCK);
+    }
+}
+
+#[inline(always)]
+fn blocked(lock: usize) {
+    match rt::sim() {
+        Some(rt) => rt.lock_blocked(lock),
+        None => std::thread::yield_now(),
+    }
+}
+
+// ---------------------------------------------------------------------------------------------
+// std::sync::Mutex
+// ---------------------------------------------------------------------------------------------
+
+pub struct Mutex<T: ?Sized> {
+    inner: std::sync::Mutex<T>,
+}
+
+pub struct MutexGuard<'a, T: ?Sized + 'a> {
+    guard: Option<std::sync::MutexGuard<'a, T>>,
+    lock: &'a Mutex<T>,
+}
+
+impl<T> Mutex<T> {
+    pub const fn new(t: T) -> Self {
+        Self {
+            inner: std::sync::Mutex::new(t),
+        }
+    }
+}
+
+impl<T: Default> Default for Mutex<T> {
+    fn default() -> Self {
+        Self::new(T::default())
+    }
+}
+
+impl<T: ?Sized + std::fmt::Debug> std::fmt::Debug for Mutex<T> {
+    fn fmt(&self, f: &mut std::fmt::Formatter<'_>) -> std::fmt::Result {
+        self.inner.fmt(f)
+    }
+}
+
+impl<T: ?Sized> Mutex<T> {
+    fn id(&self) -> usize {
+        addr_of(self)
+    }
+
+    pub fn lock(&self) -> LockResult<MutexGuard<'_, T>> {
+        if rt::sim().is_none() {
+            return match self.inner.lock() {
+                Ok(g) => Ok(MutexGuard {
+                    guard: Some(g),
+                    lock: self,
+                }),
+                Err(e) => Err(PoisonError::new(MutexGuard {
+                    guard: Some(e.into_inner()),
+                    lock: self,
+                })),
+            };
+        }
+        pre_lock(site::LOCK_MUTEX);
+        loop {
+            match self.inner.try_lock() {
+                Ok(g) => {
+                    return Ok(MutexGuard {
+                        guard: Some(g),
+                        lock: self,
+                    })
+                }
+                Err(TryLockError::Poisoned(e)) => {
+                    return Err(PoisonError::new(MutexGuard {
+                        guard: Some(e.into_inner()),
+                        lock: self,
+                    }))
+                }
+                Err(TryLockError::WouldBlock) => blocked(self.id()),
+            }
+        }
+    }
+
+    pub fn try_lock(&self) -> TryLockResult<MutexGuard<'_, T>> {
+        match self.inner.try_lock() {
+            Ok(g) => Ok(MutexGuard {
+                guard: Some(g),
+                lock: self,
+            }),
+            Err(TryLockError::Poisoned(e)) => {
+                Err(TryLockError::Poisoned(PoisonError::new(MutexGuard {
+                    guard: Some(e.into_inner()),
+                    lock: self,
+                })))
+            }
+            Err(TryLockError::WouldBlock) => Err(TryLockError::WouldBlock),
+        }
+    }
+
+    pub fn get_mut(&mut self) -> LockResult<&mut T> {
+        self.inner.get_mut()
+    }
+}
+
+impl<T: ?Sized> Deref for MutexGuard<'_, T> {
+    type Target = T;
+    fn deref(&self) -> &T {
+        self.guard.as_ref().unwrap()
+    }
+}
+
+impl<T: ?Sized> DerefMut for MutexGuard<'_, T> {
+    fn deref_mut(&mut self) -> &mut T {
+        self.guard.as_mut().unwrap()
+    }
+}
+
+impl<T: ?Sized> Drop for MutexGuard<'_, T> {
+    fn drop(&mut self) {
+        if let Some(g) = self.guard.take() {
+            drop(g);
+            released(self.lock.id());
+        }
+    }
+}
+
+// ---------------------------------------------------------------------------------------------
+// std::sync::Condvar
+// ---------------------------------------------------------------------------------------------
+
+#[derive(Default)]
+pub struct Condvar {
+    inner: std::sync::Condvar,
+}
+
+impl Condvar {
+    pub const fn new() -> Self {
+        Self {
+            inner: std::sync::Condvar::new(),
+        }
+    }
+
+    pub fn wait<'a, T>(&self, mut guard: MutexGuard<'a, T>) -> LockResult<MutexGuard<'a, T>> {
+        let lock = guard.lock;
+        match rt::sim() {
+            None => {
+                let real = guard.guard.take().unwrap();
+                let real = match self.inner.wait(real) {
+                    Ok(g) => g,
+                    Err(e) => e.into_inner(),
+                };
+                Ok(MutexGuard {
+                    guard: Some(real),
+                    lock,
+                })
+            }
+            Some(rt) => {
+                // Release the mutex without a scheduling point in between, so that the
+                // release-and-wait is atomic as the condition variable contract demands.
+                let real = guard.guard.take().unwrap();
+                drop(real);
+                rt.lock_released(lock.id());
+                rt.cv_wait(addr_of(self));
+                lock.lock()
+            }
+        }
+    }
+
+    pub fn notify_one(&self) {
+        match rt::sim() {
+            None => self.inner.notify_one(),
+            Some(rt) => {
+                rt::yield_point(site::LOCK_CV_NOTIFY);
+                rt.cv_notify(addr_of(self), false)
+            }
+        }
+    }
+
+    pub fn notify_all(&self) {
+        match rt::sim() {
+            None => self.inner.notify_all(),
+            Some(rt) => {
+                rt::yield_point(site::LOCK_CV_NOTIFY);
+                rt.cv_notify(addr_of(self), true)
+            }
+        }
+    }
+}
+
+// ---------------------------------------------------------------------------------------------
+// std::sync::RwLock
+// ---------------------------------------------------------------------------------------------
+
+pub struct RwLock<T: ?Sized> {
+    inner: std::sync::RwLock<T>,
+}
+
+pub struct RwLockReadGuard<'a, T: ?Sized + 'a> {
+    guard: Option<std::sync::RwLockReadGuard<'a, T>>,
+    id: usize,
+}
+
+pub struct RwLockWriteGuard<'a, T: ?Sized + 'a> {
+    guard: Option<std::sync::RwLockWriteGuard<'a, T>>,
+    id: usize,
+}
+
+impl<T> RwLock<T> {
+    pub const fn new(t: T) -> Self {
+        Self {
+            inner: std::sync::RwLock::new(t),
+        }
+    }
+}
+
+impl<T: Default> Default for RwLock<T> {
+    fn default() -> Self {
+        Self::new(T::default())
+    }
+}
+
+impl<T: ?Sized> RwLock<T> {
+    pub fn read(&self) -> LockResult<RwLockReadGuard<'_, T>> {
+        let id = addr_of(self);
+        if rt::sim().is_none() {
+            let g = match self.inner.read() {
+                Ok(g) => g,
+                Err(e) => e.into_inner(),
+            };
+            return Ok(RwLockReadGuard { guard: Some(g), id });
+        }
+        pre_lock(site::LOCK_RWLOCK_R);
+        loop {
+            match self.inner.try_read() {
+                Ok(g) => return Ok(RwLockReadGuard { guard: Some(g), id }),
+                Err(TryLockError::Poisoned(e)) => {
+                    return Ok(RwLockReadGuard {
+                        guard: Some(e.into_inner()),
+                        id,
+                    })
+                }
+                Err(TryLockError::WouldBlock) => blocked(id),
+            }
+        }
+    }
+
+    pub fn write(&self) -> LockResult<RwLockWriteGuard<'_, T>> {
+        let id = addr_of(self);
+        if rt::sim().is_none() {
+            let g = match self.inner.write() {
+                Ok(g) => g,
+                Err(e) => e.into_inner(),
+            };
+            return Ok(RwLockWriteGuard { guard: Some(g), id });
+        }
+        pre_lock(site::LOCK_RWLOCK_W);
+        loop {
+            match self.inner.try_write() {
+                Ok(g) => return Ok(RwLockWriteGuard { guard: Some(g), id }),
+                Err(TryLockError::Poisoned(e)) => {
+                    return Ok(RwLockWriteGuard {
+                        guard: Some(e.into_inner()),
+                        id,
+                    })
+                }
+                Err(TryLockError::WouldBlock) => blocked(id),
+            }
+        }
+    }
+
+    pub fn get_mut(&mut self) -> LockResult<&mut T> {
+        self.inner.get_mut()
+    }
+}
+
+impl<T: ?Sized> Deref for RwLockReadGuard<'_, T> {
+    type Target = T;
+    fn deref(&self) -> &T {
+        self.guard.as_ref().unwrap()
+    }
+}
+
+impl<T: ?Sized> Drop for RwLockReadGuard<'_, T> {
+    fn drop(&mut self) {
+        if let Some(g) = self.guard.take() {
+            drop(g);
+            released(self.id);
+        }
+    }
+}
+
+impl<T: ?Sized> Deref for RwLockWriteGuard<'_, T> {
+    type Target = T;
+    fn deref(&self) -> &T {
+        self.guard.as_ref().unwrap()
+    }
+}
+
+impl<T: ?Sized> DerefMut for RwLockWriteGuard<'_, T> {
+    fn deref_mut(&mut self) -> &mut T {
+        self.guard.as_mut().unwrap()
+    }
+}
+
+impl<T: ?Sized> Drop for RwLockWriteGuard<'_, T> {
+    fn drop(&mut self) {
+        if let Some(g) = self.guard.take() {
+            drop(g);
+            released(self.id);
+        }
+    }
+}
+
+// ---------------------------------------------------------------------------------------------
+// spin::Mutex / spin::RwLock
+// ---------------------------------------------------------------------------------------------
+
+pub mod spin_shim {
+    use super::{addr_of, blocked, pre_lock, released, rt, site};
+    use std::ops::{Deref, DerefMut};
+
+    pub struct Mutex<T: ?Sized> {
+        inner: spin::Mutex<T>,
+    }
+
+    pub struct MutexGuard<'a, T: ?Sized + 'a> {
+        guard: Option<spin::MutexGuard<'a, T>>,
+        id: usize,
+    }
+
+    impl<T> Mutex<T> {
+        pub const fn new(t: T) -> Self {
+            Self {
+                inner: spin::Mutex::new(t),
+            }
+        }
+    }
+
+    impl<T: Default> Default for Mutex<T> {
+        fn default() -> Self {
+            Self::new(T::default())
+        }
+    }
+
+    impl<T: ?Sized + std::fmt::Debug> std::fmt::Debug for Mutex<T> {
+        fn fmt(&self, f: &mut std::fmt::Formatter<'_>) -> std::fmt::Result {
+            self.inner.fmt(f)
+        }
+    }
+
+    impl<T: ?Sized> Mutex<T> {
+        pub fn lock(&self) -> MutexGuard<'_, T> {
+            let id = addr_of(self);
+            if rt::sim().is_none() {
+                return MutexGuard {
+                    guard: Some(self.inner.lock()),
+                    id,
+                };
+            }
+            pre_lock(site::LOCK_SPIN);
+            loop {
+                match self.inner.try_lock() {
+                    Some(g) => return MutexGuard { guard: Some(g), id },
+                    None => blocked(id),
+                }
+            }
+        }
+    }
+
+    impl<T: ?Sized> Deref for MutexGuard<'_, T> {
+        type Target = T;
+        fn deref(&self) -> &T {
+            self.guard.as_ref().unwrap()
+        }
+    }
+
+    impl<T: ?Sized> DerefMut for MutexGuard<'_, T> {
+        fn deref_mut(&mut self) -> &mut T {
+            self.guard.as_mut().unwrap()
+        }
+    }
+
+    impl<T: ?Sized> Drop for MutexGuard<'_, T> {
+        fn drop(&mut self) {
+            if let Some(g) = self.guard.take() {
+                drop(g);
+                released(self.id);
+            }
+        }
+    }
+
+    pub struct RwLock<T: ?Sized> {
+        inner: spin::RwLock<T>,
+    }
+
+    pub struct RwLockReadGuard<'a, T: ?Sized + 'a> {
+        guard: Option<spin::RwLockReadGuard<'a, T>>,
+        id: usize,
+    }
+
+    pub struct RwLockWriteGuard<'a, T: ?Sized + 'a> {
+        guard: Option<spin::RwLockWriteGuard<'a, T>>,
+        id: usize,
+    }
+
+    pub struct RwLockUpgradableGuard<'a, T: ?Sized + 'a> {
+        guard: Option<spin::RwLockUpgradableGuard<'a, T>>,
+        id: usize,
+    }
+
+    impl<T> RwLock<T> {
+        pub const fn new(t: T) -> Self {
+            Self {
+                inner: spin::RwLock::new(t),
+            }
+        }
+    }
+
+    impl<T: Default> Default for RwLock<T> {
+        fn default() -> Self {
+            Self::new(T::default())
+        }
+    }
+
+    impl<T: ?Sized> RwLock<T> {
+        pub fn read(&self) -> RwLockReadGuard<'_, T> {
+            let id = addr_of(self);
+            if rt::sim().is_none() {
+                return RwLockReadGuard {
+                    guard: Some(self.inner.read()),
+                    id,
+                };
+            }
+            pre_lock(site::LOCK_SPIN);
+            loop {
+                match self.inner.try_read() {
+                    Some(g) => return RwLockReadGuard { guard: Some(g), id },
+                    None => blocked(id),
+                }
+            }
+        }
+
+        pub fn write(&self) -> RwLockWriteGuard<'_, T> {
+            let id = addr_of(self);
+            if rt::sim().is_none() {
+                return RwLockWriteGuard {
+                    guard: Some(self.inner.write()),
+                    id,
+                };
+            }
+            pre_lock(site::LOCK_SPIN);
+            loop {
+                match self.inner.try_write() {
+                    Some(g) => return RwLockWriteGuard { guard: Some(g), id },
+                    None => blocked(id),
+                }
+            }
+        }
+
+        pub fn upgradeable_read(&self) -> RwLockUpgradableGuard<'_, T> {
+            let id = addr_of(self);
+            if rt::sim().is_none() {
+                return RwLockUpgradableGuard {
+                    guard: Some(self.inner.upgradeable_read()),
+                    id,
+                };
+            }
+            pre_lock(site::LOCK_SPIN);
+            loop {
+                match self.inner.try_upgradeable_read() {
+                    Some(g) => return RwLockUpgradableGuard { guard: Some(g), id },
+                    None => blocked(id),
+                }
+            }
+        }
+    }
+
+    impl<'a, T: ?Sized> RwLockUpgradableGuard<'a, T> {
+        pub fn upgrade(mut self) -> RwLockWriteGuard<'a, T> {
+            let id = self.id;
+            let mut g = self.guard.take().unwrap();
+            if rt::sim().is_none() {
+                return RwLockWriteGuard {
+                    guard: Some(g.upgrade()),
+                    id,
+                };
+            }
+            pre_lock(site::LOCK_SPIN);
+            loop {
+                match g.try_upgrade() {
+                    Ok(w) => return RwLockWriteGuard { guard: Some(w), id },
+                    Err(back) => {
+                        g = back;
+                        blocked(id);
+                    }
+                }
+            }
+        }
+    }
+
+    impl<T: ?Sized> Deref for RwLockReadGuard<'_, T> {
+        type Target = T;
+        fn deref(&self) -> &T {
+            self.guard.as_ref().unwrap()
+        }
+    }
+
+    impl<T: ?Sized> Drop for RwLockReadGuard<'_, T> {
+        fn drop(&mut self) {
+            if let Some(g) = self.guard.take() {
+                drop(g);
+                released(self.id);
+            }
+        }
+    }
+
+    impl<T: ?Sized> Deref for RwLockWriteGuard<'_, T> {
+        type Target = T;
+        fn deref(&self) -> &T {
+            self.guard.as_ref().unwrap()
+        }
+    }
+
+    impl<T: ?Sized> DerefMut for RwLockWriteGuard<'_, T> {
+        fn deref_mut(&mut self) -> &mut T {
+            self.guard.as_mut().unwrap()
+        }
+    }
+
+    impl<T: ?Sized> Drop for RwLockWriteGuard<'_, T> {
+        fn drop(&mut self) {
+            if let Some(g) = self.guard.take() {
+                drop(g);
+                released(self.id);
+            }
+        }
+    }
+
+    impl<T: ?Sized> Deref for RwLockUpgradableGuard<'_, T> {
+        type Target = T;
+        fn deref(&self) -> &T {
+            self.guard.as_ref().unwrap()
+        }
+    }
+
+    impl<T: ?Sized> Drop for RwLockUpgradableGuard<'_, T> {
+        fn drop(&mut self) {
+            if let Some(g) = self.guard.take() {
+                drop(g);
+                released(self.id);
+            }
+        }
+    }
+}
